@@ -419,7 +419,8 @@ def readBackSub (s : SubStreams) (sizes : List Nat) : SubStreams :=
     digests := if s.digestsdefined.any id then (s.digestsdefined.zip s.digests).map (fun (d, c) => if d then c else 0)
                else List.replicate s.numUnpack.sum 0 }
 
-theorem impl_reads_substreams (s : SubStreams) (fs : List Folder) (bytes rest : Bytes)
+theorem impl_reads_substreams (total : Nat) (s : SubStreams) (fs : List Folder) (bytes rest : Bytes)
+    (hcount : s.numUnpack.sum ≤ total * 8)
     (hw : writeSubStreams s = some bytes) (hne : s.numUnpack ≠ [])
     (hlen : s.numUnpack.length = fs.length) (hdd : ∀ f ∈ fs, f.digestdefined = false)
     (hn : ∀ n ∈ s.numUnpack, n < 2 ^ 64)
@@ -427,7 +428,7 @@ theorem impl_reads_substreams (s : SubStreams) (fs : List Folder) (bytes rest : 
     (hv : ∀ v ∈ sizes, v < 2 ^ 64)
     (hdl : s.digestsdefined.length = s.numUnpack.sum) (hcl : s.digests.length = s.numUnpack.sum)
     (hc : ∀ c ∈ s.digests, c < 256 ^ 4) :
-    readSubStreams fs (bytes.drop 1 ++ rest) = .ok (readBackSub s sizes, rest) := by
+    readSubStreams total fs (bytes.drop 1 ++ rest) = .ok (readBackSub s sizes, rest) := by
   unfold writeSubStreams at hw
   have hne' : s.numUnpack.isEmpty = false := by cases h : s.numUnpack <;> simp_all
   simp only [hne', Bool.false_eq_true, if_false] at hw
@@ -490,12 +491,14 @@ theorem impl_reads_substreams (s : SubStreams) (fs : List Folder) (bytes rest : 
   · simp only [hsolid, if_true] at hw
     have hnums : ∀ tail pidb, (do
         let ns ← repeatP fs.length pNumber
+        if ns.sum > total * 8 then fail .bad7z else
         let pid ← read1
         pure (ns, pid) : P (List Nat × Option Nat)) (s.numUnpack.flatMap writeNumber ++ pidb :: tail) =
         .ok ((s.numUnpack, some pidb), tail) := by
       intro tail pidb
       rw [← hlen, P.bind_ok (repeatP_flatMap pNumber writeNumber id s.numUnpack (fun n hn' r => pNumber_write n (hn n hn') r) _)]
-      simp [bind, StateT.bind, Except.bind, pure, StateT.pure, Except.pure]
+      have hng : ¬ (s.numUnpack.sum > total * 8) := by omega
+      simp [hng, bind, StateT.bind, Except.bind, pure, StateT.pure, Except.pure]
     by_cases hmulti : s.numUnpack.any (· > 1) = true
     · simp only [hmulti, if_true, hs] at hw
       cases sizes with
